@@ -218,3 +218,59 @@ func H_C08_crc() {
 	vAssert(crcStep(t, s, b1) != crcStep(t, s, b2), "C08.crc.step-injective-in-byte")
 	vCover("C08.crc.done")
 }
+
+// hC08boundary: one valid record sized so that the symbolic tail begins d bytes
+// before the end of bufio's 4096-byte buffer (the reader starts at the 512-byte
+// header): header, key, value and checksum of a tail record straddle the refill.
+func hC08boundary(d, T int) {
+	opts := (&Options{FileSystem: fs.Mem}).copyWithDefaults("c08c")
+	fsys := opts.FileSystem
+	k := vBytes("bk", 1)
+	vlen := 4096 - d - 11
+	v := make([]byte, vlen)
+	for i := range v {
+		v[i] = byte(i * 13)
+	}
+	sv := vBytes("bv", 2)
+	v[0], v[vlen-1] = sv[0], sv[1]
+	body := refEncode(k, v, false)
+	tail := vBytes("tail", T)
+	kl := uint32(tail[0]) | uint32(tail[1])<<8
+	vl := (uint32(tail[2]) | uint32(tail[3])<<8 | uint32(tail[4])<<16 | uint32(tail[5])<<24) & 0x7fffffff
+	vAssume(vl <= 16)
+	vAssume(kl+vl <= 16)
+	name := segmentName(0, 1)
+	vWriteFile(fsys, name, refHeader(), body, tail)
+	data := append(append([]byte{}, body...), tail...)
+	dl := &datalog{opts: opts}
+	seg, err := dl.openSegment(name, 0, 1)
+	vAssert(err == nil, "C08.boundary.opensegment")
+	if err != nil {
+		return
+	}
+	it := newRecoveryIterator([]*segment{seg})
+	off := 0
+	for n := 0; n < 4; n++ {
+		want, ok := refDecodeAt(data, off)
+		rec, err := it.next()
+		if !ok {
+			vAssert(err == ErrIterationDone, "C08.boundary.stops-at-first-invalid")
+			break
+		}
+		vAssert(err == nil, "C08.boundary.accepts-valid")
+		if err != nil {
+			return
+		}
+		vAssert(vEqBytes(rec.key, want.key) && vEqBytes(rec.value, want.value), "C08.boundary.record")
+		vAssert(int(rec.offset) == headerSize+off, "C08.boundary.offset")
+		off += want.size
+		if n >= 1 {
+			vCover("C08.boundary.record-across-buffer-refill-accepted")
+		}
+	}
+	vAssert(vFileSize(fsys, name) == int64(headerSize+off), "C08.boundary.truncated-to-valid-prefix")
+	vCover("C08.boundary.done")
+}
+
+// case = d (0..11): the tail starts d bytes before the buffer boundary; T = 14 symbolic bytes
+func H_C08_boundary() { hC08boundary(vCase()%12, 14) }
